@@ -24,11 +24,21 @@ pub trait Read: Sized {
             old(self).remaining().len() < old(buf)@.len() ==> r is Err,
             // ASSUMED for the round-trip clause: no spurious I/O error when enough bytes are available
             old(self).remaining().len() >= old(buf)@.len() ==> r is Ok;
+    /// std contract of `read`: SOME prefix of what remains is copied to the front of the buffer (possibly a short read)
+    fn read(&mut self, buf: &mut [u8]) -> (r: Result<usize, IoError>)
+        ensures
+            final(buf)@.len() == old(buf)@.len(),
+            r is Ok ==> r->Ok_0 <= old(buf)@.len() && r->Ok_0 <= old(self).remaining().len()
+                && final(buf)@.subrange(0, r->Ok_0 as int) == old(self).remaining().subrange(0, r->Ok_0 as int)
+                && final(self).remaining() == old(self).remaining().subrange(r->Ok_0 as int, old(self).remaining().len() as int);
 }
 pub trait Write: Sized {
     spec fn written(&self) -> Seq<u8>;
     fn write_all(&mut self, buf: &[u8]) -> (r: Result<(), IoError>)
         ensures r is Ok ==> final(self).written() == old(self).written() + buf@;
+    /// std contract of `write`: SOME prefix of the buffer is written and its length returned (possibly a short write)
+    fn write(&mut self, buf: &[u8]) -> (r: Result<usize, IoError>)
+        ensures r is Ok ==> r->Ok_0 <= buf@.len() && final(self).written() == old(self).written() + buf@.subrange(0, r->Ok_0 as int);
 }
 #[verifier::external_body]
 pub struct BincodeConfig { _p: core::marker::PhantomData<()> }
